@@ -15,7 +15,7 @@ def check(ctx):
     if not r.ok:
         ctx.model_violation(r, "wire format laws")
     rng = ctx.rng
-    reps = 1500 if ctx.thorough else 80
+    reps = 8000 if ctx.thorough else 80
     lines = []
     for rep in range(reps):
         for i in range(NA):
